@@ -1,34 +1,37 @@
-import PyrexVerif.R.Propagate
+import PyrexVerif.R.IceAtten
+import PyrexVerif.Props.C16
 import Mathlib.Tactic.Linarith
 import Mathlib.Tactic.Positivity
 import Mathlib.Tactic.Ring
 import Mathlib.Tactic.NormNum
 /-!
-# C03 — `AntarcticIce.attenuation_length`: positive, and not growing with the frequency
+# C03 — attenuation lengths of the shipped ices: positive, and not growing with the frequency
 
-Lemmas about `antarcticTempC`, `attenB0/1/2`, `antarcticAttenLength` of `twin/Propagate.body` (ℝ reading).
+About `attenAntarctic`, `attenGreenland`, `attenArasim` of `twin/IceAtten.body`, whose constants and formulas
+(`ant_tempC`, `ant_b0/b1/b2`, `ant_w0/w2`, `grn_alenRaw`, `ara_depths`, …) are REGENERATED from
+`pyrex/ice_model.py` by `harness/extract/ice_consts.py`: an edited coefficient re-opens these proofs.
 -/
 noncomputable section
 namespace PropLemmas
 open PyrexR
 
 /-- `b₂ − b₁ = 2.1265 + 0.068714 t + 1.441·10⁻³ t² ≥ 1.3` for **every** temperature -/
-lemma attenB2_sub_B1_ge (t : ℝ) : 1.3 ≤ attenB2 t - attenB1 t := by
-  unfold attenB2 attenB1
+lemma ant_b2_sub_b1_ge (t : ℝ) : 1.3 ≤ ant_b2 t - ant_b1 t := by
+  unfold ant_b2 ant_b1
   nlinarith [sq_nonneg (t + 23.84)]
 
-lemma attenB2_sub_B1_pos (t : ℝ) : 0 < attenB2 t - attenB1 t := by
-  linarith [attenB2_sub_B1_ge t]
-
 /-- `b₀ − b₁ = −0.5277 + 0.097636 t + 8.89·10⁻⁴ t² < 0` for `−60 ≤ t ≤ 0` (°C) -/
-lemma attenB0_sub_B1_neg (t : ℝ) (h1 : -60 ≤ t) (h2 : t ≤ 0) : attenB0 t - attenB1 t < 0 := by
-  unfold attenB0 attenB1
+lemma ant_b0_sub_b1_neg (t : ℝ) (h1 : -60 ≤ t) (h2 : t ≤ 0) : ant_b0 t - ant_b1 t < 0 := by
+  unfold ant_b0 ant_b1
   nlinarith [mul_nonneg (neg_nonneg.mpr h2) (by linarith : (0 : ℝ) ≤ t + 60)]
 
-/-- the temperature profile stays in `[−51.07, 0]` °C over the whole ice sheet `−2850 m ≤ z ≤ 0` -/
-theorem antarctic_temp_range (z : ℝ) (h1 : -2850 ≤ z) (h2 : z ≤ 0) :
-    -51.07 ≤ antarcticTempC z ∧ antarcticTempC z ≤ 0 := by
-  unfold antarcticTempC
+/-- the temperature profile stays in `[−51.07, 0]` °C over the whole valid range of the ice model -/
+theorem antarctic_temp_range (z : ℝ) (h1 : ant_lo ≤ z) (h2 : z ≤ ant_hi) :
+    -51.07 ≤ ant_tempC z ∧ ant_tempC z ≤ 0 := by
+  unfold ant_lo at h1
+  unfold ant_hi at h2
+  unfold ant_tempC
+  simp only
   have hu0 : 0 ≤ -0.001 * z := by nlinarith
   have hu1 : -0.001 * z ≤ 2.85 := by nlinarith
   generalize -0.001 * z = u at hu0 hu1
@@ -40,51 +43,78 @@ theorem antarctic_temp_range (z : ℝ) (h1 : -2850 ≤ z) (h2 : z ≤ 0) :
   · have := mul_le_mul hu1 hi1 hi0 (by norm_num : (0 : ℝ) ≤ 2.85)
     nlinarith
 
-/-- the attenuation length is positive for every depth and frequency -/
-theorem L_antarctic_pos (z f : ℝ) : 0 < antarcticAttenLength z f := by
-  unfold antarcticAttenLength
-  exact Real.exp_pos _
+lemma ant_w0_neg : ant_w0 < 0 := by
+  unfold ant_w0; exact Real.log_neg (by norm_num) (by norm_num)
+lemma ant_w2_pos : 0 < ant_w2 := by
+  unfold ant_w2; exact Real.log_pos (by norm_num)
 
-lemma log_1em4_neg : Real.log 1e-4 < 0 := Real.log_neg (by norm_num) (by norm_num)
-lemma log_316_pos : 0 < Real.log 3.16 := Real.log_pos (by norm_num)
-
-/-- general form: wherever `b₀(t) ≤ b₁(t)` at the temperature of depth `z`, the attenuation length
-does not grow with the frequency (`b₂ − b₁ > 0` holds for every temperature) -/
+/-- general form: wherever `b₀(t) ≤ b₁(t)` at the temperature of depth `z`, the attenuation length does not
+grow with the frequency (`b₂ − b₁ > 0` holds for every temperature; continuity at the 1 GHz split) -/
 theorem L_antarctic_mono' (z f₁ f₂ : ℝ)
-    (ht : attenB0 (antarcticTempC z) ≤ attenB1 (antarcticTempC z)) (hf1 : 0 < f₁) (hf : f₁ ≤ f₂) :
-    antarcticAttenLength z f₂ ≤ antarcticAttenLength z f₁ := by
-  unfold antarcticAttenLength
-  simp only [Rexp, Rlog]
-  generalize antarcticTempC z = t at ht
-  have hb0 : 0 ≤ (attenB0 t - attenB1 t) / Real.log 1e-4 :=
-    div_nonneg_of_nonpos (sub_nonpos.mpr ht) log_1em4_neg.le
-  have hb2 : 0 ≤ (attenB2 t - attenB1 t) / Real.log 3.16 :=
-    div_nonneg (attenB2_sub_B1_pos t).le log_316_pos.le
-  have hp1 : 0 < f₁ * 1e-9 := by positivity
-  have hlog : Real.log (f₁ * 1e-9) ≤ Real.log (f₂ * 1e-9) :=
+    (ht : ant_b0 (ant_tempC z) ≤ ant_b1 (ant_tempC z)) (hf1 : 0 < f₁) (hf : f₁ ≤ f₂) :
+    attenAntarctic z f₂ ≤ attenAntarctic z f₁ := by
+  unfold attenAntarctic ant_attenOf ant_coefA ant_coefB ant_w ant_fSplit
+  simp only [Rexp, Rlog, ite_self]
+  generalize ant_tempC z = t at ht
+  have hb0 : 0 ≤ (ant_b0 t - ant_b1 t) / ant_w0 :=
+    div_nonneg_of_nonpos (sub_nonpos.mpr ht) ant_w0_neg.le
+  have hb2 : 0 ≤ (ant_b2 t - ant_b1 t) / ant_w2 :=
+    div_nonneg (by linarith [ant_b2_sub_b1_ge t]) ant_w2_pos.le
+  have hp1 : 0 < f₁ * 1.0e-9 := by positivity
+  have hlog : Real.log (f₁ * 1.0e-9) ≤ Real.log (f₂ * 1.0e-9) :=
     Real.log_le_log hp1 (by nlinarith)
   rw [Real.exp_le_exp, neg_le_neg_iff, add_le_add_iff_left]
-  by_cases c1 : f₁ < 1e9 <;> by_cases c2 : f₂ < 1e9
+  by_cases c1 : f₁ < 1000000000.0 <;> by_cases c2 : f₂ < 1000000000.0
   · rw [if_pos c1, if_pos c2]
     exact mul_le_mul_of_nonneg_left hlog hb0
   · rw [if_pos c1, if_neg c2]
-    have hl1 : Real.log (f₁ * 1e-9) ≤ 0 := Real.log_nonpos hp1.le (by nlinarith)
-    have hl2 : 0 ≤ Real.log (f₂ * 1e-9) := Real.log_nonneg (by nlinarith [not_lt.mp c2])
+    have hl1 : Real.log (f₁ * 1.0e-9) ≤ 0 := Real.log_nonpos hp1.le (by nlinarith)
+    have hl2 : 0 ≤ Real.log (f₂ * 1.0e-9) := Real.log_nonneg (by nlinarith [not_lt.mp c2])
     nlinarith [mul_nonneg hb0 (neg_nonneg.mpr hl1), mul_nonneg hb2 hl2]
   · exact absurd (lt_of_le_of_lt hf c2) c1
   · rw [if_neg c1, if_neg c2]
     exact mul_le_mul_of_nonneg_left hlog hb2
 
-/-- **A7**: for ice temperatures `−60 °C ≤ t ≤ 0 °C` the attenuation length does not grow with `f` -/
-theorem L_antarctic_mono (z f₁ f₂ : ℝ) (ht1 : -60 ≤ antarcticTempC z) (ht2 : antarcticTempC z ≤ 0)
-    (hf1 : 0 < f₁) (hf : f₁ ≤ f₂) : antarcticAttenLength z f₂ ≤ antarcticAttenLength z f₁ :=
-  L_antarctic_mono' z f₁ f₂ (by linarith [attenB0_sub_B1_neg _ ht1 ht2]) hf1 hf
+/-- for ice temperatures `−60 °C ≤ t ≤ 0 °C` the attenuation length does not grow with `f` -/
+theorem L_antarctic_mono (z f₁ f₂ : ℝ) (ht1 : -60 ≤ ant_tempC z) (ht2 : ant_tempC z ≤ 0)
+    (hf1 : 0 < f₁) (hf : f₁ ≤ f₂) : attenAntarctic z f₂ ≤ attenAntarctic z f₁ :=
+  L_antarctic_mono' z f₁ f₂ (by linarith [ant_b0_sub_b1_neg _ ht1 ht2]) hf1 hf
 
-/-- the same with the hypothesis on the depth: anywhere in the ice sheet -/
-theorem L_antarctic_mono_depth (z f₁ f₂ : ℝ) (h1 : -2850 ≤ z) (h2 : z ≤ 0)
-    (hf1 : 0 < f₁) (hf : f₁ ≤ f₂) : antarcticAttenLength z f₂ ≤ antarcticAttenLength z f₁ := by
+/-- **AntarcticIce** (and `UniformIce`, which borrows its attenuation): anywhere in the valid range -/
+theorem L_antarctic_mono_depth (z f₁ f₂ : ℝ) (h1 : ant_lo ≤ z) (h2 : z ≤ ant_hi)
+    (hf1 : 0 < f₁) (hf : f₁ ≤ f₂) :
+    0 < attenAntarctic z f₂ ∧ attenAntarctic z f₂ ≤ attenAntarctic z f₁ := by
   obtain ⟨ha, hb⟩ := antarctic_temp_range z h1 h2
-  exact L_antarctic_mono z f₁ f₂ (by linarith) hb hf1 hf
+  exact ⟨C16_atten_antarctic_pos z f₂, L_antarctic_mono z f₁ f₂ (by linarith) hb hf1 hf⟩
+
+/-- **GreenlandIce**: `max(min_alen, alen₇₅ − 5.5·10⁻⁷ (f − 75 MHz))` is positive and non-increasing in `f`,
+at every depth and for every pair of frequencies -/
+theorem L_greenland_mono (z f₁ f₂ : ℝ) (hf : f₁ ≤ f₂) :
+    0 < attenGreenland z f₂ ∧ attenGreenland z f₂ ≤ attenGreenland z f₁ := by
+  refine ⟨(C16_atten_greenland_floor z f₂).2, ?_⟩
+  unfold attenGreenland grn_alenRaw grn_minAlen
+  simp only
+  generalize grn_alen75 (grn_tempC z) = A
+  split_ifs with c2 c1 c1 <;> nlinarith
+
+/-- **ArasimIce**: the attenuation length does not depend on the frequency at all, and is positive on the
+valid depth range -/
+theorem L_arasim_const (z f₁ f₂ : ℝ) : attenArasim z f₂ = attenArasim z f₁ := rfl
+
+theorem L_arasim_mono (z f₁ f₂ : ℝ) (hz : -2850 ≤ z) :
+    0 < attenArasim z f₂ ∧ attenArasim z f₂ ≤ attenArasim z f₁ := by
+  refine ⟨by linarith [C16_atten_arasim_pos z f₂ hz], le_of_eq (L_arasim_const z f₁ f₂)⟩
+
+/-- pointwise facts along the sampled depths of a path give the `Forall₂` hypothesis of the
+monotonicity theorems `C03_atten_mono_*` -/
+lemma forall₂_lengths (att : ℝ → ℝ → ℝ) (f₁ f₂ : ℝ) (zs : List ℝ)
+    (h : ∀ z ∈ zs, 0 < att z f₂ ∧ att z f₂ ≤ att z f₁) :
+    List.Forall₂ (fun L1 L2 => 0 < L2 ∧ L2 ≤ L1) (zs.map fun z => att z f₁) (zs.map fun z => att z f₂) := by
+  induction zs with
+  | nil => exact List.Forall₂.nil
+  | cons z zs ih =>
+    simp only [List.map_cons]
+    exact List.Forall₂.cons (h z (by simp)) (ih (fun w hw => h w (List.mem_cons_of_mem _ hw)))
 
 end PropLemmas
 end
